@@ -1484,7 +1484,8 @@ class FixedPoint(SerializableBase):
         if self._signed:
             val += self._max_val
         val *= 1 << self._frac_bits
-        return self._ser_spec.serialize(round(val), writer, ctx)
+        # The top of the clamp range is one step past what the primitive can hold
+        return self._ser_spec.serialize(min(round(val), self._ser_spec.max_val), writer, ctx)
 
     def calc_size(self):
         return self._ser_spec.calc_size()
